@@ -210,6 +210,9 @@ func onewayMain(args []string) {
 		}
 		extra = cancelAfterReturn(rand.New(rand.NewSource(cf.seed+77)), n, sum)
 	}
+	if cf.replay == "" && !sum.tooMany() {
+		extra += replayScenario(sum)
+	}
 	sum.Cases = len(cases) + extra
 	sum.finish(start, cf.out)
 }
